@@ -452,11 +452,16 @@ func doFormat(w io.Writer, obj Object, opt OutputOptions, needSep bool) (bool, e
 		}
 
 		// method 2: If we can seek, write whitespace now and replace this with
-		// the actual value later.
-		if _, ok := x.pdf.origW.(io.WriteSeeker); ok {
-			x.pos = append(x.pos, x.pdf.w.pos)
-			_, err := w.Write(bytes.Repeat([]byte{' '}, x.size))
-			return true, err
+		// the actual value later.  This needs the position of the text in
+		// the file, which is only known when the text goes straight to the
+		// file (and not, e.g., into the buffer of an object stream).  Once an
+		// indirect reference has been handed out, we keep using it.
+		if pw, direct := w.(*posWriter); direct && pw == x.pdf.w && x.ref == 0 {
+			if _, ok := x.pdf.origW.(io.WriteSeeker); ok {
+				x.pos = append(x.pos, pw.pos)
+				_, err := w.Write(bytes.Repeat([]byte{' '}, x.size))
+				return true, err
+			}
 		}
 
 		// method 3: If all else fails, use an indirect reference.
@@ -1144,7 +1149,11 @@ func (x *Placeholder) Set(val Native) error {
 		if err != nil {
 			return fmt.Errorf("Placeholder.Set: %w", err)
 		}
-		return nil
+		if len(x.pos) == 0 {
+			return nil
+		}
+		// The placeholder has also been written straight to the file:
+		// these positions are filled in below.
 	}
 
 	if x.value != nil {
